@@ -80,7 +80,8 @@ class SV:
 
     # -- construction helpers
     def _mk(self, e, other=None):
-        return SV(e, self.elem or (isinstance(other, SV) and other.elem))
+        tags = self.tags if self.tags is not None else (other.tags if isinstance(other, SV) else None)
+        return SV(e, self.elem or (isinstance(other, SV) and other.elem), tags)
 
     def is_int(self):
         return self.e.sort() == I
@@ -263,6 +264,8 @@ class SV:
         from .interp import Untranslatable
 
         if self.elem:
+            if isinstance(self.tags, dict) and "shape" in self.tags:
+                return self.tags["shape"]
             raise Untranslatable("shape of a generic-element tensor (contract must supply it)")
         return ()
 
